@@ -28,6 +28,9 @@ use crate::{
 
 use super::grammar::{res_symbol, Grammar};
 
+#[cfg(feature = "verif")]
+pub mod verif;
+
 #[derive(Debug, Clone)]
 pub enum Action {
     Shift(StateIndex),
